@@ -361,8 +361,13 @@ let () =
                               df "final-score-differs-from-converged-iteration"
                         | None -> ()))
                 end;
+                (* a property failure on a case where the implementation also deviates from the
+                   model cannot be attributed to a known (= modelled) defect: say so in the detail,
+                   the signatures of the known findings exclude it *)
                 match !propfail, !diff with
-                | Some s, _ -> "PROPFAIL " ^ s
+                | Some s, Some d ->
+                    "PROPFAIL " ^ s ^ " model-differs:" ^ String.map (fun c -> if c = ' ' then '_' else c) d
+                | Some s, None -> "PROPFAIL " ^ s
                 | None, Some s -> "DIFF " ^ s
                 | None, None -> "OK"
               end
